@@ -117,6 +117,14 @@ def main(argv):
         return 1
     facts = Facts(facts_dir)
     ctx = Ctx(pid, tier, facts, info)
+    try:
+        ctx.FX = Facts(extract.ensure_fixture_facts())
+        ctx.PX = Program(ctx.FX)
+    except RuntimeError as e:
+        print('ERROR: fixture extraction failed: %s' % e)
+        ctx.FX = None
+        ctx.PX = None
+        ctx._rec('ENGINE', 'fixture', 'VIOLATION', str(e)[-800:], None, 'ENGINE:fixture')
     mod = importlib.import_module('sa.props.' + pid.lower())
     try:
         mod.run(ctx)
